@@ -44,6 +44,28 @@ func (x *Exec) packResults(t types.Type, res []Val) Val {
 
 // describe gives a stable source-level name for a value (used by hook patterns and field-call contracts).
 func (x *Exec) describe(fr *Frame, v ssa.Value) string {
+	// a value that is (the current value of) a named source variable
+	if fr != nil {
+		if _, isParam := v.(*ssa.Parameter); !isParam {
+			if m := x.debugNames(fr.fn); m != nil {
+				for name, vals := range m {
+					for _, dv := range vals {
+						if dv == v {
+							switch v.(type) {
+							case *ssa.MakeChan, *ssa.Phi, *ssa.Call, *ssa.Extract, *ssa.UnOp:
+								if _, isField := v.(*ssa.UnOp); isField {
+									if _, ok := v.(*ssa.UnOp).X.(*ssa.FieldAddr); ok {
+										break
+									}
+								}
+								return "local:" + name
+							}
+						}
+					}
+				}
+			}
+		}
+	}
 	switch n := v.(type) {
 	case *ssa.Parameter:
 		return "param:" + n.Name()
@@ -113,6 +135,10 @@ func (x *Exec) doCall(st *State, fr *Frame, cc *ssa.CallCommon, fv Val, args []V
 	sig := cc.Signature()
 	if con, ok := x.C.Funcs[desc]; ok {
 		x.applyContract(st, fr, con, desc, sig, args, pos, k)
+		return
+	}
+	if con, ok := x.C.Funcs["functype:"+typeShort(fv.T)]; ok {
+		x.applyContract(st, fr, con, "functype:"+typeShort(fv.T), sig, args, pos, k)
 		return
 	}
 	// try "field:T.f" contracts declared with the short field name only
@@ -1126,6 +1152,72 @@ func (x *Exec) goStmt(st *State, fr *Frame, g *ssa.Go, pos string) {
 		x.applyHookEffects(st, fr, h, extra)
 	}
 	x.assumed["go statement at "+pos+": the spawned body is not executed by the generator (environment contract only)"] = true
+	// captured-cell stability: a variable captured by reference by the spawned closure must not be assigned by the spawner afterwards
+	if mc, ok := g.Call.Value.(*ssa.MakeClosure); ok {
+		for _, b := range mc.Bindings {
+			al, ok := b.(*ssa.Alloc)
+			if !ok {
+				continue
+			}
+			goal := "true"
+			if st := storeReachableAfter(g, al); st != nil {
+				goal = "false"
+				x.warn("variable %q captured by reference by the goroutine started at %s is assigned again at %s", al.Comment, pos, x.posOf(st))
+			}
+			x.oblige(st, "spawn", "stable-capture."+al.Comment, pos, goal, nil)
+		}
+	}
+}
+
+// storeReachableAfter finds a store to cell that can execute after instruction `from` (same function, CFG reachability).
+func storeReachableAfter(from ssa.Instruction, cell *ssa.Alloc) ssa.Instruction {
+	blk := from.Block()
+	seenFrom := false
+	check := func(in ssa.Instruction) bool {
+		s, ok := in.(*ssa.Store)
+		return ok && s.Addr == cell
+	}
+	for _, in := range blk.Instrs {
+		if in == from {
+			seenFrom = true
+			continue
+		}
+		if seenFrom && in == ssa.Instruction(cell) {
+			return nil // the cell is re-allocated before anything else happens: a fresh variable per iteration
+		}
+		if seenFrom && check(in) {
+			return in
+		}
+	}
+	visited := map[*ssa.BasicBlock]bool{}
+	stack := append([]*ssa.BasicBlock{}, blk.Succs...)
+	for len(stack) > 0 {
+		b := stack[len(stack)-1]
+		stack = stack[:len(stack)-1]
+		if visited[b] {
+			continue
+		}
+		visited[b] = true
+		stop := false
+		for _, in := range b.Instrs {
+			if in == from {
+				stop = true
+				break
+			}
+			if in == ssa.Instruction(cell) {
+				// re-executing the allocation creates a new cell: stores after it do not touch the captured one
+				stop = true
+				break
+			}
+			if check(in) {
+				return in
+			}
+		}
+		if !stop {
+			stack = append(stack, b.Succs...)
+		}
+	}
+	return nil
 }
 
 func (x *Exec) sendStmt(st *State, fr *Frame, s *ssa.Send, pos string) {
@@ -1139,6 +1231,9 @@ func (x *Exec) recvOp(st *State, fr *Frame, u *ssa.UnOp, ch Val, pos string) Val
 	v := x.freshVal(st, et, "recv")
 	ok := Val{T: types.Typ[types.Bool], K: KScalar, S: x.freshConst("recvok", "Bool")}
 	desc := x.describe(fr, u.X)
+	if x.neverClosed(desc) {
+		st.assume(ok.S)
+	}
 	extra := map[string]Val{"$chan": ch, "$recv": v, "$ok": ok}
 	hs := x.chanHooks("recv", desc)
 	for _, h := range hs {
@@ -1183,6 +1278,9 @@ func (x *Exec) selectStmt(st *State, fr *Frame, s *ssa.Select, b *ssa.BasicBlock
 					v := x.freshVal(st2, et, "recv")
 					okc := Val{T: types.Typ[types.Bool], K: KScalar, S: x.freshConst("recvok", "Bool")}
 					desc := x.describe(fr2, sc.Chan)
+					if x.neverClosed(desc) {
+						st2.assume(okc.S)
+					}
 					extra := map[string]Val{"$chan": chv, "$recv": v, "$ok": okc}
 					hs := x.chanHooks("recv", desc)
 					for _, h := range hs {
@@ -1371,4 +1469,15 @@ func (x *Exec) closureWriteSet(st *State, fr *Frame, clo *Closure, csig *types.S
 		}
 	}
 	return ws
+}
+
+// neverClosed: the contract under verification declares (and separately proves, obligation noclose#X) that the channel
+// variable is closed neither by this function nor by its function literals; a receive on it then always delivers a real message.
+func (x *Exec) neverClosed(desc string) bool {
+	for _, ch := range x.con.NoClose {
+		if desc == "local:"+ch || desc == "param:"+ch {
+			return true
+		}
+	}
+	return false
 }
